@@ -24,8 +24,8 @@ type opSpec struct {
 	Times  int     `json:"times"`
 	Method int     `json:"method"`
 	NewId  int     `json:"new_id"`
-	F1     float64 `json:"f1"`
-	F2     float64 `json:"f2"`
+	F1     JF      `json:"f1"`
+	F2     JF      `json:"f2"`
 }
 
 type innovJSON struct {
@@ -80,7 +80,7 @@ func coqOp(op opSpec) string {
 	case "mut":
 		return fmt.Sprintf("(OpMut %d %d)", op.Mut, op.Times)
 	default:
-		return fmt.Sprintf("(OpMate %d %s %s %s)", op.Method, ZI(op.NewId), F(op.F1), F(op.F2))
+		return fmt.Sprintf("(OpMate %d %s %s %s)", op.Method, ZI(op.NewId), F(float64(op.F1)), F(float64(op.F2)))
 	}
 }
 
@@ -146,7 +146,7 @@ func (o *opsGen) apply(op opSpec, g, g2 *genetics.Genome, env *venv, opts *neat.
 			out.child = g
 			out.flag, out.err = genetics.VMutate(mutKinds[op.Mut], g, env, env, opts, 1, op.Times)
 		case "mate":
-			out.child, out.err = genetics.VMate(op.Method, g, g2, op.NewId, op.F1, op.F2)
+			out.child, out.err = genetics.VMate(op.Method, g, g2, op.NewId, float64(op.F1), float64(op.F2))
 			out.flag = true
 		}
 	}()
@@ -574,12 +574,35 @@ type family struct {
 	env     *venv
 	opts    *neat.Options
 	start   *genetics.Genome
+	sibling *family // an independently numbered lineage of the same start genome (C01 only)
 }
 
 func newFamily(r *rand.Rand) *family {
 	starts := startGenomes()
-	s := starts[r.Intn(len(starts))]
-	return &family{members: []*genetics.Genome{s}, env: startEnv(s), opts: randOptions(r), start: s}
+	k := r.Intn(len(starts))
+	s := starts[k]
+	f := &family{members: []*genetics.Genome{s}, env: startEnv(s), opts: randOptions(r), start: s}
+	s2 := startGenomes()[k]
+	f.sibling = &family{members: []*genetics.Genome{s2}, env: startEnv(s2), opts: f.opts, start: s2}
+	return f
+}
+
+// fitness pairs incl. the boundary family: exact ties, near ties, infinite ties, tiny values, signed zeros
+func fitnessPair(r *rand.Rand) (float64, float64) {
+	switch r.Intn(10) {
+	case 0:
+		return 1, math.Nextafter(1, 2)
+	case 1:
+		return 1 + 1e-12, 1
+	case 2:
+		return math.Inf(1), math.Inf(1)
+	case 3:
+		return 1e-300, 2e-300
+	case 4:
+		return math.Copysign(0, -1), 0
+	}
+	fit := []float64{0, 1, 1, 2.5}
+	return fit[r.Intn(4)], fit[r.Intn(4)]
 }
 
 func (f *family) pick(r *rand.Rand) *genetics.Genome { return f.members[r.Intn(len(f.members))] }
@@ -595,8 +618,12 @@ func (o *opsGen) stepRec(f *family, stepNo int, mateProb float64, mutWeights []i
 	g := f.pick(r)
 	if r.Float64() < mateProb && len(f.members) > 1 {
 		g2 := f.pick(r)
-		fit := []float64{0, 1, 1, 2.5}
-		op := opSpec{Kind: "mate", Method: r.Intn(3), NewId: 100 + stepNo, F1: fit[r.Intn(4)], F2: fit[r.Intn(4)]}
+		if prop == "C01" && f.sibling != nil && r.Intn(3) == 0 {
+			// parents from independently numbered lineages: the same number may denote different links
+			g2 = f.sibling.pick(r)
+		}
+		f1, f2 := fitnessPair(r)
+		op := opSpec{Kind: "mate", Method: r.Intn(3), NewId: 100 + stepNo, F1: JF(f1), F2: JF(f2)}
 		b2 := snap(g2)
 		out := o.apply(op, g, g2, f.env, f.opts, emitMate)
 		return op, g, g2, out, b2
@@ -677,7 +704,7 @@ func evalOracles(prop string, op opSpec, operand *genetics.Genome, operandBefore
 		}
 	case "C04":
 		if op.Kind == "mate" {
-			checkMate(op.Method, operand, g2, op.F1, op.F2, out.child, bad)
+			checkMate(op.Method, operand, g2, float64(op.F1), float64(op.F2), out.child, bad)
 			if !operandBefore.eq(snap(operand)) {
 				bad("mate-modified-parent", "crossover modified its first parent")
 			}
